@@ -171,7 +171,8 @@ def realise(b, kind):
             if abstract != verify_direct(kind, der, sig, presented, si["alg"]):
                 consistent = False
     sd = cms.SignedData({"version": "v1", "digest_algorithms": [{"algorithm": a} for a in sorted({si["alg"] for si in b["sis"]})],
-                         "encap_content_info": {"content_type": "data"}, "certificates": [cms.CertificateChoices.load(c) for c in certs], "signer_infos": infos})
+                         # (b["embed"]: the non-detached variant -- the signed .SF travels inside the block; the file in the archive still decides)
+                         "encap_content_info": ({"content_type": "data", "content": sf_bytes("sf0")} if b.get("embed") else {"content_type": "data"}), "certificates": [cms.CertificateChoices.load(c) for c in certs], "signer_infos": infos})
     return cms.ContentInfo({"content_type": "signed_data", "content": sd}).dump(), sf, certs, consistent
 
 
@@ -366,8 +367,11 @@ def run(chk):
                 siglen = len(sign(kind, "k1", b"x", alg))
                 sfpos = range(len(SF0)) if not quick else rnd.sample(range(len(SF0)), 10)
                 sgpos = range(siglen) if not quick else rnd.sample(range(siglen), 10)
-                for p in sfpos:
-                    rec, consistent, raised = observe(apk, base_block(alg, wa, minsdk=rnd.choice([21, 24]), sf="sf@%d" % p), kind)
+                for n_, p in enumerate(list(sfpos) + [None, None]):
+                    bb = base_block(alg, wa, minsdk=rnd.choice([21, 24]), sf=("sf@%d" % p) if p is not None else "sf0")
+                    if n_ % 2 or p is None:
+                        bb["embed"] = True
+                    rec, consistent, raised = observe(apk, bb, kind)
                     inconsistent += not consistent
                     recs.append(rec)
                     metas.append((rec["b"], kind, raised))
